@@ -290,4 +290,14 @@ example : Src.tbutils.ExceptionInfo.type_str ⟨some "pkg.mod".toList, "A.B".toL
 example : Src.tbutils.ExceptionInfo.type_str ⟨some "builtins".toList, "ValueError".toList⟩ = "ValueError".toList := by decide
 example : Src.tbutils.ExceptionInfo.type_str ⟨none, "X".toList⟩ = "<unknown>.X".toList := by decide
 
+/-! ## _some_str -/
+
+/-- **tie**: the generated `_some_str` is the model's `someStr` (`str(value)` returns a str or raises: `StrObj.str?`) -/
+theorem src_some_str_eq_model (x : StrObj) : Src.tbutils.some_str x = someStr x.str? := by
+  unfold Src.tbutils.some_str someStr
+  cases x.str? <;> rfl
+
+example : Src.tbutils.some_str ⟨some "boom".toList⟩ = "boom".toList := by decide
+example : Src.tbutils.some_str ⟨none⟩ = "<exception str() failed>".toList := by decide
+
 end C16
